@@ -249,3 +249,609 @@ theorem pump_fuel (s : St) (fuel : Nat) (h : s.buf.length < fuel) : pump fuel s 
       rw [this]
 
 end AkVerif.Conn
+
+namespace AkVerif.Conn
+open AkVerif.Wire
+
+def outIds (s : St) : List Nat := s.out.map (·.1)
+
+/-- bookkeeping invariant of the connection: every waiter ever created is either resolved (exactly
+    one entry in the outcome log) or still queued and pending; a closed connection has no queue -/
+structure Inv (s : St) : Prop where
+  ids_sorted : (s.reqs.map (·.id)).Pairwise (· < ·)
+  ids_lt : ∀ r ∈ s.reqs, r.id < s.nextId
+  out_lt : ∀ i ∈ outIds s, i < s.nextId
+  out_nodup : (outIds s).Nodup
+  pend_fresh : ∀ r ∈ s.reqs, r.done = false → r.id ∉ outIds s
+  done_has : ∀ r ∈ s.reqs, r.done = true → r.id ∈ outIds s
+  complete : ∀ i, i < s.nextId → i ∈ outIds s ∨ ∃ r ∈ s.reqs, r.id = i
+  closed_empty : s.isOpen = false → s.reqs = []
+
+theorem eq_of_id_eq {l : List Req} (h : (l.map (·.id)).Pairwise (· < ·)) {a b : Req}
+    (ha : a ∈ l) (hb : b ∈ l) (hid : a.id = b.id) : a = b := by
+  induction l with
+  | nil => cases ha
+  | cons x xs ih =>
+    simp only [List.map_cons, List.pairwise_cons] at h
+    rcases List.mem_cons.mp ha with rfl | ha' <;> rcases List.mem_cons.mp hb with rfl | hb'
+    · rfl
+    · have := h.1 b.id (List.mem_map.mpr ⟨b, hb', rfl⟩); omega
+    · have := h.1 a.id (List.mem_map.mpr ⟨a, ha', rfl⟩); omega
+    · exact ih h.2 ha' hb'
+
+def mark (p : Req → Bool) (r : Req) : Req := if !r.done && p r then { r with done := true } else r
+
+@[simp] theorem mark_id (p : Req → Bool) (r : Req) : (mark p r).id = r.id := by
+  unfold mark; split <;> rfl
+
+theorem resolveWhere_reqs (p : Req → Bool) (o : Outcome) (s : St) :
+    (resolveWhere p o s).reqs = s.reqs.map (mark p) := rfl
+
+theorem resolveWhere_outIds (p : Req → Bool) (o : Outcome) (s : St) :
+    outIds (resolveWhere p o s)
+      = (s.reqs.filter (fun r => !r.done && p r)).map (·.id) ++ outIds s := by
+  unfold outIds resolveWhere
+  simp [List.map_append, List.map_map, Function.comp_def]
+
+theorem map_mark_ids (p : Req → Bool) (l : List Req) : (l.map (mark p)).map (·.id) = l.map (·.id) := by
+  simp [List.map_map, Function.comp_def]
+
+theorem resolveWhere_inv (p : Req → Bool) (o : Outcome) (s : St) (h : Inv s) :
+    Inv (resolveWhere p o s) := by
+  have hn : (resolveWhere p o s).nextId = s.nextId := rfl
+  constructor
+  · rw [resolveWhere_reqs, map_mark_ids]; exact h.ids_sorted
+  · intro r hr
+    rw [resolveWhere_reqs] at hr
+    obtain ⟨r0, hr0, rfl⟩ := List.mem_map.mp hr
+    rw [mark_id, hn]; exact h.ids_lt r0 hr0
+  · intro i hi
+    rw [resolveWhere_outIds] at hi
+    rw [hn]
+    rcases List.mem_append.mp hi with hi | hi
+    · obtain ⟨r, hr, rfl⟩ := List.mem_map.mp hi
+      exact h.ids_lt r (List.mem_filter.mp hr).1
+    · exact h.out_lt i hi
+  · rw [resolveWhere_outIds, List.nodup_append]
+    refine ⟨?_, h.out_nodup, ?_⟩
+    · have hsub : ((s.reqs.filter (fun r => !r.done && p r)).map (·.id)).Sublist (s.reqs.map (·.id)) :=
+        List.Sublist.map _ List.filter_sublist
+      exact (List.Pairwise.sublist hsub h.ids_sorted).imp (fun hlt => Nat.ne_of_lt hlt)
+    · intro a ha b hb heq
+      obtain ⟨r, hr, rfl⟩ := List.mem_map.mp ha
+      have hf := List.mem_filter.mp hr
+      have hd : r.done = false := by
+        have := hf.2; simp only [Bool.and_eq_true, Bool.not_eq_true'] at this; exact this.1
+      exact h.pend_fresh r hf.1 hd (heq ▸ hb)
+  · intro r hr hd
+    rw [resolveWhere_reqs] at hr
+    obtain ⟨r0, hr0, rfl⟩ := List.mem_map.mp hr
+    rw [mark_id, resolveWhere_outIds]
+    unfold mark at hd
+    split at hd
+    · simp at hd
+    · rename_i hc
+      intro hmem
+      rcases List.mem_append.mp hmem with hm | hm
+      · obtain ⟨r1, hr1, hid⟩ := List.mem_map.mp hm
+        have hf := List.mem_filter.mp hr1
+        have : r1 = r0 := eq_of_id_eq h.ids_sorted hf.1 hr0 hid
+        subst this
+        exact hc hf.2
+      · exact h.pend_fresh r0 hr0 hd hm
+  · intro r hr hd
+    rw [resolveWhere_reqs] at hr
+    obtain ⟨r0, hr0, rfl⟩ := List.mem_map.mp hr
+    rw [mark_id, resolveWhere_outIds]
+    unfold mark at hd
+    split at hd
+    · rename_i hc
+      exact List.mem_append_left _ (List.mem_map.mpr ⟨r0, List.mem_filter.mpr ⟨hr0, hc⟩, rfl⟩)
+    · exact List.mem_append_right _ (h.done_has r0 hr0 hd)
+  · intro i hi
+    rw [hn] at hi
+    rcases h.complete i hi with h1 | ⟨r, hr, rfl⟩
+    · left; rw [resolveWhere_outIds]; exact List.mem_append_right _ h1
+    · right
+      exact ⟨mark p r, by rw [resolveWhere_reqs]; exact List.mem_map.mpr ⟨r, hr, rfl⟩, mark_id p r⟩
+  · intro hc
+    rw [resolveWhere_reqs, h.closed_empty hc]; rfl
+
+end AkVerif.Conn
+
+namespace AkVerif.Conn
+open AkVerif.Wire
+
+theorem mark_true_done (r : Req) : (mark (fun _ => true) r).done = true := by
+  unfold mark
+  by_cases h : r.done = true
+  · simp [h]
+  · have : r.done = false := by simpa using h
+    simp [this]
+
+theorem close_inv (s : St) (h : Inv s) : Inv (close s) := by
+  unfold close
+  by_cases ho : s.isOpen = true
+  · simp only [ho, Bool.not_true, Bool.false_eq_true, if_false]
+    have hr := resolveWhere_inv (fun _ => true) Outcome.connErr s h
+    constructor
+    · simp
+    · intro r hr; cases hr
+    · exact hr.out_lt
+    · exact hr.out_nodup
+    · intro r hr; cases hr
+    · intro r hr; cases hr
+    · intro i hi
+      rcases hr.complete i hi with h1 | ⟨r, hrm, rfl⟩
+      · exact Or.inl h1
+      · left
+        apply hr.done_has r hrm
+        rw [resolveWhere_reqs] at hrm
+        obtain ⟨r0, _, rfl⟩ := List.mem_map.mp hrm
+        exact mark_true_done r0
+    · intro _; rfl
+  · have : s.isOpen = false := by simpa using ho
+    simp only [this, Bool.not_false, if_true]; exact h
+
+theorem send_inv (s : St) (c : Bool) (k : Kind) (h : Inv s) : Inv (send s c k) := by
+  unfold send
+  by_cases ho : s.isOpen = true
+  · simp only [ho, Bool.not_true, Bool.false_eq_true, if_false]
+    constructor
+    · simp only [List.map_append, List.map_cons, List.map_nil]
+      rw [List.pairwise_append]
+      refine ⟨h.ids_sorted, by simp, ?_⟩
+      intro a ha b hb
+      obtain ⟨r, hr, rfl⟩ := List.mem_map.mp ha
+      simp only [List.mem_singleton] at hb; subst hb
+      exact h.ids_lt r hr
+    · intro r hr
+      simp only [List.mem_append, List.mem_singleton] at hr
+      rcases hr with hr | rfl
+      · have := h.ids_lt r hr; simp only; omega
+      · simp
+    · intro i hi; have := h.out_lt i hi; simp only; omega
+    · exact h.out_nodup
+    · intro r hr hd
+      simp only [List.mem_append, List.mem_singleton] at hr
+      rcases hr with hr | rfl
+      · exact h.pend_fresh r hr hd
+      · intro hm; have := h.out_lt _ hm; simp at this
+    · intro r hr hd
+      simp only [List.mem_append, List.mem_singleton] at hr
+      rcases hr with hr | rfl
+      · exact h.done_has r hr hd
+      · simp at hd
+    · intro i hi
+      simp only at hi
+      rcases Nat.lt_or_ge i s.nextId with hlt | hge
+      · rcases h.complete i hlt with h1 | ⟨r, hr, rfl⟩
+        · exact Or.inl h1
+        · exact Or.inr ⟨r, List.mem_append_left _ hr, rfl⟩
+      · have : i = s.nextId := by omega
+        subst this
+        exact Or.inr ⟨_, List.mem_append_right _ (List.mem_singleton.mpr rfl), rfl⟩
+    · intro hc; simp [ho] at hc
+  · have hc : s.isOpen = false := by simpa using ho
+    simp only [hc, Bool.not_false, if_true]
+    have hre := h.closed_empty hc
+    constructor
+    · simpa [hre] using h.ids_sorted
+    · intro r hr; simp [hre] at hr
+    · intro i hi
+      simp only [outIds, List.map_cons, List.mem_cons] at hi
+      rcases hi with rfl | hi
+      · simp
+      · have := h.out_lt i hi; simp only; omega
+    · simp only [outIds, List.map_cons, List.nodup_cons]
+      exact ⟨fun hm => by have := h.out_lt _ hm; simp at this, h.out_nodup⟩
+    · intro r hr; simp [hre] at hr
+    · intro r hr; simp [hre] at hr
+    · intro i hi
+      simp only at hi
+      left
+      simp only [outIds, List.map_cons, List.mem_cons]
+      rcases Nat.lt_or_ge i s.nextId with hlt | hge
+      · rcases h.complete i hlt with h1 | ⟨r, hr, _⟩
+        · exact Or.inr h1
+        · simp [hre] at hr
+      · left; omega
+    · intro _; exact hre
+
+/-- popping a head request whose waiter is already done -/
+theorem pop_done_inv (s : St) (r : Req) (rest : List Req) (h : Inv s) (hq : s.reqs = r :: rest)
+    (hd : r.done = true) (ho : s.isOpen = true) : Inv (s.setRO rest s.out) := by
+  have hmem : ∀ x ∈ rest, x ∈ s.reqs := fun x hx => hq ▸ List.mem_cons_of_mem _ hx
+  constructor
+  · have := h.ids_sorted; rw [hq] at this
+    simp only [List.map_cons, List.pairwise_cons] at this
+    exact this.2
+  · intro x hx; exact h.ids_lt x (hmem x hx)
+  · exact h.out_lt
+  · exact h.out_nodup
+  · intro x hx; exact h.pend_fresh x (hmem x hx)
+  · intro x hx; exact h.done_has x (hmem x hx)
+  · intro i hi
+    rcases h.complete i hi with h1 | ⟨x, hx, rfl⟩
+    · exact Or.inl h1
+    · rw [hq] at hx
+      rcases List.mem_cons.mp hx with rfl | hx'
+      · exact Or.inl (h.done_has x (hq ▸ List.mem_cons_self) hd)
+      · exact Or.inr ⟨x, hx', rfl⟩
+  · intro hc; simp [ho] at hc
+
+/-- popping a pending head request while giving its waiter an outcome -/
+theorem pop_out_inv (s : St) (r : Req) (rest : List Req) (o : Outcome) (h : Inv s)
+    (hq : s.reqs = r :: rest) (hd : r.done = false) (ho : s.isOpen = true) :
+    Inv (s.setRO rest ((r.id, o) :: s.out)) := by
+  have hmem : ∀ x ∈ rest, x ∈ s.reqs := fun x hx => hq ▸ List.mem_cons_of_mem _ hx
+  have hsorted := h.ids_sorted
+  rw [hq] at hsorted
+  simp only [List.map_cons, List.pairwise_cons] at hsorted
+  have hne : ∀ x ∈ rest, x.id ≠ r.id := by
+    intro x hx
+    have := hsorted.1 x.id (List.mem_map.mpr ⟨x, hx, rfl⟩); omega
+  constructor
+  · exact hsorted.2
+  · intro x hx; exact h.ids_lt x (hmem x hx)
+  · intro i hi
+    simp only [outIds, setRO_out, List.map_cons, List.mem_cons] at hi
+    rcases hi with rfl | hi
+    · exact h.ids_lt r (hq ▸ List.mem_cons_self)
+    · exact h.out_lt i hi
+  · simp only [outIds, setRO_out, List.map_cons, List.nodup_cons]
+    exact ⟨h.pend_fresh r (hq ▸ List.mem_cons_self) hd, h.out_nodup⟩
+  · intro x hx hxd
+    simp only [outIds, setRO_out, List.map_cons, List.mem_cons, not_or]
+    exact ⟨hne x hx, h.pend_fresh x (hmem x hx) hxd⟩
+  · intro x hx hxd
+    simp only [outIds, setRO_out, List.map_cons, List.mem_cons]
+    exact Or.inr (h.done_has x (hmem x hx) hxd)
+  · intro i hi
+    rcases h.complete i hi with h1 | ⟨x, hx, rfl⟩
+    · left; simp only [outIds, setRO_out, List.map_cons, List.mem_cons]; exact Or.inr h1
+    · rw [hq] at hx
+      rcases List.mem_cons.mp hx with rfl | hx'
+      · left; simp [outIds]
+      · exact Or.inr ⟨x, hx', rfl⟩
+  · intro hc; simp [ho] at hc
+
+theorem withBuf_inv (s : St) (x : Bytes) (h : Inv s) : Inv (s.withBuf x) :=
+  ⟨h.ids_sorted, h.ids_lt, h.out_lt, h.out_nodup, h.pend_fresh, h.done_has, h.complete, h.closed_empty⟩
+
+theorem handleFrame_inv (s : St) (f : Bytes) (h : Inv s) (ho : s.isOpen = true) :
+    Inv (handleFrame s f) := by
+  unfold handleFrame
+  split
+  · exact close_inv s h
+  · rename_i r rest hq
+    split
+    · by_cases hd : r.done = true
+      · simp only [hd, if_true]; exact pop_done_inv s r rest h hq hd ho
+      · have hd' : r.done = false := by simpa using hd
+        simp only [hd', Bool.false_eq_true, if_false]; exact pop_out_inv s r rest _ h hq hd' ho
+    · split
+      · exact close_inv s h
+      · split
+        · exact close_inv _ (resolveWhere_inv _ _ s h)
+        · split
+          · rename_i hd; exact pop_done_inv s r rest h hq hd ho
+          · rename_i hd
+            have hd' : r.done = false := by simpa using hd
+            split
+            · exact close_inv s h
+            · exact pop_out_inv s r rest _ h hq hd' ho
+
+theorem pump_inv (fuel : Nat) : ∀ s : St, Inv s → Inv (pump fuel s) := by
+  induction fuel with
+  | zero => intro s h; exact h
+  | succ n ih =>
+    intro s h
+    rw [pump]
+    by_cases ho : s.isOpen = true
+    · simp only [ho, Bool.not_true, Bool.false_eq_true, if_false]
+      split
+      · exact h
+      · exact close_inv s h
+      · exact ih _ (handleFrame_inv _ _ (withBuf_inv s _ h) (by simpa using ho))
+    · have : s.isOpen = false := by simpa using ho
+      simp only [this, Bool.not_false, if_true]; exact h
+
+theorem step_inv (s : St) (op : Op) (h : Inv s) : Inv (step s op) := by
+  cases op with
+  | send c k => exact send_inv s c k h
+  | feed ch =>
+    simp only [step, feed]
+    split
+    · exact h
+    · exact pump_inv _ _ (withBuf_inv s _ h)
+  | advance dt =>
+    simp only [step, advance]
+    exact resolveWhere_inv _ _ _
+      ⟨h.ids_sorted, h.ids_lt, h.out_lt, h.out_nodup, h.pend_fresh, h.done_has, h.complete, h.closed_empty⟩
+  | cancel id => exact resolveWhere_inv _ _ s h
+  | eof => exact close_inv s h
+  | close => exact close_inv s h
+
+theorem init_inv (t c : Nat) : Inv { timeoutMs := t, counter := c } := by
+  constructor
+  · simp
+  · intro r hr; cases hr
+  · intro i hi; cases hi
+  · simp [outIds]
+  · intro r hr; cases hr
+  · intro r hr; cases hr
+  · intro i hi; cases hi
+  · intro _; rfl
+
+theorem run_inv (s : St) (ops : List Op) (h : Inv s) : Inv (run s ops) := by
+  induction ops generalizing s with
+  | nil => exact h
+  | cons op ops ih => exact ih _ (step_inv s op h)
+
+end AkVerif.Conn
+
+namespace AkVerif.Conn
+open AkVerif.Wire
+
+/-- outcomes produced by an arriving frame (as opposed to failures) -/
+def Outcome.delivered : Outcome → Bool
+  | .reply _ _ => true
+  | .raw _ => true
+  | _ => false
+
+/-- the reply a waiter holds answers its own request -/
+def answers (corr : Option Nat) (quirk : Bool) : Outcome → Prop
+  | .reply recv _ => ∃ c, corr = some c ∧ (recv = (c : Int) ∨ (quirk = true ∧ c ≠ 0 ∧ recv = 0))
+  | .raw _ => corr = none
+  | _ => True
+
+/-- matching invariant: each delivered outcome answers the waiter's own request (same correlation
+    id, or the documented 0.8.2 quirk), and deliveries happen in request order (whatever has been
+    delivered is older than everything still queued) -/
+structure InvM (s : St) : Prop where
+  issued_reqs : ∀ r ∈ s.reqs, (r.id, r.corr, r.kind.quirk) ∈ s.issued
+  issued_lt : ∀ e ∈ s.issued, e.1 < s.nextId
+  reqs_lt : ∀ r ∈ s.reqs, r.id < s.nextId
+  sorted : (s.reqs.map (·.id)).Pairwise (· < ·)
+  out_match : ∀ io ∈ s.out, ∃ corr q, (io.1, corr, q) ∈ s.issued ∧ answers corr q io.2
+  order : ∀ io ∈ s.out, io.2.delivered = true → ∀ r ∈ s.reqs, io.1 < r.id
+  counter_lt : s.counter < 2 ^ 31
+
+theorem resolveWhere_invM (p : Req → Bool) (o : Outcome) (ho : o.delivered = false) (s : St)
+    (h : InvM s) : InvM (resolveWhere p o s) := by
+  have hids : ∀ r ∈ (resolveWhere p o s).reqs, ∃ r0 ∈ s.reqs, r = mark p r0 := by
+    intro r hr; rw [resolveWhere_reqs] at hr
+    obtain ⟨r0, h0, rfl⟩ := List.mem_map.mp hr; exact ⟨r0, h0, rfl⟩
+  have mark_fields : ∀ r0 : Req, (mark p r0).corr = r0.corr ∧ (mark p r0).kind = r0.kind := by
+    intro r0; unfold mark; split <;> exact ⟨rfl, rfl⟩
+  constructor
+  · intro r hr
+    obtain ⟨r0, h0, rfl⟩ := hids r hr
+    rw [mark_id, (mark_fields r0).1, (mark_fields r0).2]
+    exact h.issued_reqs r0 h0
+  · exact h.issued_lt
+  · intro r hr
+    obtain ⟨r0, h0, rfl⟩ := hids r hr
+    rw [mark_id]; exact h.reqs_lt r0 h0
+  · rw [resolveWhere_reqs, map_mark_ids]; exact h.sorted
+  · intro io hio
+    simp only [resolveWhere, List.mem_append, List.mem_map, List.mem_filter] at hio
+    rcases hio with ⟨r, ⟨hr, _⟩, rfl⟩ | hio
+    · refine ⟨r.corr, r.kind.quirk, h.issued_reqs r hr, ?_⟩
+      cases o <;> simp_all [answers, Outcome.delivered]
+    · exact h.out_match io hio
+  · intro io hio hdel r hr
+    obtain ⟨r0, h0, rfl⟩ := hids r hr
+    rw [mark_id]
+    simp only [resolveWhere, List.mem_append, List.mem_map, List.mem_filter] at hio
+    rcases hio with ⟨r1, _, rfl⟩ | hio
+    · simp [ho] at hdel
+    · exact h.order io hio hdel r0 h0
+  · exact h.counter_lt
+
+theorem close_invM (s : St) (h : InvM s) : InvM (close s) := by
+  unfold close
+  by_cases ho : s.isOpen = true
+  · simp only [ho, Bool.not_true, Bool.false_eq_true, if_false]
+    have hrw := resolveWhere_invM (fun _ => true) Outcome.connErr rfl s h
+    constructor
+    · intro r hr; cases hr
+    · exact hrw.issued_lt
+    · intro r hr; cases hr
+    · simp
+    · exact hrw.out_match
+    · intro io _ _ r hr; cases hr
+    · exact hrw.counter_lt
+  · have : s.isOpen = false := by simpa using ho
+    simp only [this, Bool.not_false, if_true]; exact h
+
+theorem nextCorr_lt (c : Nat) : nextCorr c < 2 ^ 31 := by
+  unfold nextCorr; exact Nat.mod_lt _ (by decide)
+
+theorem send_invM (s : St) (c : Bool) (k : Kind) (h : InvM s) : InvM (send s c k) := by
+  unfold send
+  by_cases ho : s.isOpen = true
+  · simp only [ho, Bool.not_true, Bool.false_eq_true, if_false]
+    constructor
+    · intro r hr
+      simp only [List.mem_append, List.mem_singleton] at hr
+      rcases hr with hr | rfl
+      · exact List.mem_cons_of_mem _ (h.issued_reqs r hr)
+      · exact List.mem_cons_self
+    · intro e he
+      rcases List.mem_cons.mp he with rfl | he
+      · simp
+      · have := h.issued_lt e he; simp only; omega
+    · intro r hr
+      simp only [List.mem_append, List.mem_singleton] at hr
+      rcases hr with hr | rfl
+      · have := h.reqs_lt r hr; simp only; omega
+      · simp
+    · simp only [List.map_append, List.map_cons, List.map_nil]
+      rw [List.pairwise_append]
+      refine ⟨h.sorted, by simp, ?_⟩
+      intro a ha b hb
+      obtain ⟨r, hr, rfl⟩ := List.mem_map.mp ha
+      simp only [List.mem_singleton] at hb; subst hb
+      exact h.reqs_lt r hr
+    · intro io hio
+      obtain ⟨corr, q, hm, hmt⟩ := h.out_match io hio
+      exact ⟨corr, q, List.mem_cons_of_mem _ hm, hmt⟩
+    · intro io hio hdel r hr
+      simp only [List.mem_append, List.mem_singleton] at hr
+      rcases hr with hr | rfl
+      · exact h.order io hio hdel r hr
+      · obtain ⟨corr, q, hm, _⟩ := h.out_match io hio
+        exact h.issued_lt _ hm
+    · simp only
+      split
+      · exact nextCorr_lt _
+      · exact h.counter_lt
+  · have hc : s.isOpen = false := by simpa using ho
+    simp only [hc, Bool.not_false, if_true]
+    constructor
+    · intro r hr; exact List.mem_cons_of_mem _ (h.issued_reqs r hr)
+    · intro e he
+      rcases List.mem_cons.mp he with rfl | he
+      · simp
+      · have := h.issued_lt e he; simp only; omega
+    · intro r hr; have := h.reqs_lt r hr; simp only; omega
+    · exact h.sorted
+    · intro io hio
+      rcases List.mem_cons.mp hio with rfl | hio
+      · exact ⟨none, k.quirk, List.mem_cons_self, by simp [answers]⟩
+      · obtain ⟨corr, q, hm, hmt⟩ := h.out_match io hio
+        exact ⟨corr, q, List.mem_cons_of_mem _ hm, hmt⟩
+    · intro io hio hdel r hr
+      rcases List.mem_cons.mp hio with rfl | hio
+      · simp [Outcome.delivered] at hdel
+      · exact h.order io hio hdel r hr
+    · exact h.counter_lt
+
+end AkVerif.Conn
+
+namespace AkVerif.Conn
+open AkVerif.Wire
+
+theorem pop_invM (s : St) (r : Req) (rest : List Req) (h : InvM s) (hq : s.reqs = r :: rest) :
+    InvM (s.setRO rest s.out) := by
+  have hmem : ∀ x ∈ rest, x ∈ s.reqs := fun x hx => hq ▸ List.mem_cons_of_mem _ hx
+  constructor
+  · intro x hx; exact h.issued_reqs x (hmem x hx)
+  · exact h.issued_lt
+  · intro x hx; exact h.reqs_lt x (hmem x hx)
+  · have := h.sorted; rw [hq] at this
+    simp only [List.map_cons, List.pairwise_cons] at this; exact this.2
+  · exact h.out_match
+  · intro io hio hdel x hx; exact h.order io hio hdel x (hmem x hx)
+  · exact h.counter_lt
+
+theorem pop_out_invM (s : St) (r : Req) (rest : List Req) (o : Outcome) (h : InvM s)
+    (hq : s.reqs = r :: rest) (hm : answers r.corr r.kind.quirk o) :
+    InvM (s.setRO rest ((r.id, o) :: s.out)) := by
+  have hmem : ∀ x ∈ rest, x ∈ s.reqs := fun x hx => hq ▸ List.mem_cons_of_mem _ hx
+  have hsorted := h.sorted
+  rw [hq] at hsorted
+  simp only [List.map_cons, List.pairwise_cons] at hsorted
+  constructor
+  · intro x hx; exact h.issued_reqs x (hmem x hx)
+  · exact h.issued_lt
+  · intro x hx; exact h.reqs_lt x (hmem x hx)
+  · exact hsorted.2
+  · intro io hio
+    simp only [setRO_out] at hio
+    rcases List.mem_cons.mp hio with rfl | hio
+    · exact ⟨r.corr, r.kind.quirk, h.issued_reqs r (hq ▸ List.mem_cons_self), hm⟩
+    · exact h.out_match io hio
+  · intro io hio hdel x hx
+    simp only [setRO_out] at hio
+    rcases List.mem_cons.mp hio with rfl | hio
+    · exact hsorted.1 x.id (List.mem_map.mpr ⟨x, hx, rfl⟩)
+    · exact h.order io hio hdel x (hmem x hx)
+  · exact h.counter_lt
+
+theorem handleFrame_invM (s : St) (f : Bytes) (h : InvM s) : InvM (handleFrame s f) := by
+  unfold handleFrame
+  split
+  · exact close_invM s h
+  · rename_i r rest hq
+    split
+    · rename_i hc
+      by_cases hd : r.done = true
+      · simp only [hd, if_true]; exact pop_invM s r rest h hq
+      · have hd' : r.done = false := by simpa using hd
+        simp only [hd', Bool.false_eq_true, if_false]
+        exact pop_out_invM s r rest _ h hq (by simp [answers, hc])
+    · rename_i c hc
+      split
+      · exact close_invM s h
+      · rename_i recv body _
+        split
+        · exact close_invM _ (resolveWhere_invM _ _ rfl s h)
+        · rename_i hcond
+          split
+          · exact pop_invM s r rest h hq
+          · split
+            · exact close_invM s h
+            · apply pop_out_invM s r rest _ h hq
+              simp only [answers]
+              refine ⟨c, hc, ?_⟩
+              simp only [Bool.and_eq_true, Bool.not_eq_true', bne_iff_ne, ne_eq, beq_iff_eq,
+                not_and, Bool.and_eq_false_imp, Bool.not_eq_false, Decidable.not_not] at hcond
+              by_cases hq' : r.kind.quirk = true
+              · by_cases hc0 : c = 0
+                · left; apply hcond; intro hh; exact absurd hc0 hh.2
+                · by_cases hr0 : recv = 0
+                  · right; exact ⟨hq', hc0, hr0⟩
+                  · left; apply hcond; intro _; simpa using hr0
+              · left; apply hcond; intro hh; exact absurd hh.1 hq'
+
+theorem withBuf_invM (s : St) (x : Bytes) (h : InvM s) : InvM (s.withBuf x) :=
+  ⟨h.issued_reqs, h.issued_lt, h.reqs_lt, h.sorted, h.out_match, h.order, h.counter_lt⟩
+
+theorem pump_invM (fuel : Nat) : ∀ s : St, InvM s → InvM (pump fuel s) := by
+  induction fuel with
+  | zero => intro s h; exact h
+  | succ n ih =>
+    intro s h
+    rw [pump]
+    split
+    · exact h
+    · split
+      · exact h
+      · exact close_invM s h
+      · exact ih _ (handleFrame_invM _ _ (withBuf_invM s _ h))
+
+theorem step_invM (s : St) (op : Op) (h : InvM s) : InvM (step s op) := by
+  cases op with
+  | send c k => exact send_invM s c k h
+  | feed ch =>
+    simp only [step, feed]
+    split
+    · exact h
+    · exact pump_invM _ _ (withBuf_invM s _ h)
+  | advance dt =>
+    simp only [step, advance]
+    exact resolveWhere_invM _ _ rfl _
+      ⟨h.issued_reqs, h.issued_lt, h.reqs_lt, h.sorted, h.out_match, h.order, h.counter_lt⟩
+  | cancel id => exact resolveWhere_invM _ _ rfl s h
+  | eof => exact close_invM s h
+  | close => exact close_invM s h
+
+theorem init_invM (t c : Nat) (hc : c < 2 ^ 31) : InvM { timeoutMs := t, counter := c } := by
+  constructor
+  · intro r hr; cases hr
+  · intro e he; cases he
+  · intro r hr; cases hr
+  · simp
+  · intro io hio; cases hio
+  · intro io hio; cases hio
+  · exact hc
+
+theorem run_invM (s : St) (ops : List Op) (h : InvM s) : InvM (run s ops) := by
+  induction ops generalizing s with
+  | nil => exact h
+  | cons op ops ih => exact ih _ (step_invM s op h)
+
+end AkVerif.Conn
